@@ -12,7 +12,7 @@ from mc.ref import expr as rx
 
 ID = "C10"
 LEVEL = "model_checking"
-LEVEL_TEXT = ("Explicit enumeration of `.if` programs (18 condition kinds: 0/1/2/-1 as literal, := constant, macro parameter, constant "
+LEVEL_TEXT = ("Explicit enumeration of `.if` programs (23 condition kinds: 0/1/2/-1 as literal, := constant, macro parameter, constant "
               "expression, undefined name alone and inside an expression) x else present/absent x 10 then-bodies (incl. empty, one that applies an undefined macro, a macro definition, a label used after the .if and a := override) x 6 else-bodies x 4 placements (top level, block, "
               "macro body, loop body) and `.for` programs (all bound pairs over {-2,0,1,3}^2, bounds from := constants, macro "
               "parameters and expressions incl. & << >> at the top of the start bound; the constants are assigned again at the end of every program) x 11 bodies (empty expansion, a macro defined in the body and applied after the loop, a name assigned twice in one iteration and used as an inner loop bound, := shadowing inside the body, data over v, lda.b v, label + reference, nested loop over v*2+w, conditional, "
@@ -41,6 +41,8 @@ CONSTS = [("const", "kc", N(1)), ("const", "k0", N(0)), ("const", "k2", N(2)), (
 COND = {
     "lit0": (N(0), 0, "direct"), "lit1": (N(1), 1, "direct"), "lit2": (N(2), 2, "direct"), "neg1": (("b", "-", N(0), N(1)), -1, "direct"),
     "const0": (S("k0"), 0, "direct"), "const1": (S("kc"), 1, "direct"), "const2": (S("k2"), 2, "direct"), "constneg": (S("kn"), -1, "direct"),
+    "lit0x0": (("n", 0, "0x0"), 0, "direct"), "lit0x00": (("n", 0, "0x00"), 0, "direct"), "lit0b0": (("n", 0, "0b0"), 0, "direct"),
+    "lit0x1": (("n", 1, "0x01"), 1, "direct"), "param0x0": (("n", 0, "0x0"), 0, "param"),
     "undefined": (S("nosuchname"), 0, "direct"),
     "param0": (N(0), 0, "param"), "param1": (N(1), 1, "param"), "param2": (N(2), 2, "param"), "paramneg": (("b", "-", N(0), N(1)), -1, "param"),
     "expr0": (("b", "-", S("kc"), S("kc")), 0, "direct"), "expr2": (("b", "+", S("kc"), N(1)), 2, "direct"),
@@ -60,8 +62,10 @@ THEN = {
     "const-override": [("const", "kq", N(2)), ("data", "db", [N(0x16)])],  # kq := 1 outside, .db kq after the .if
     # a block that cannot be expanded: the program fails when (and only when) this block is the selected one
     "undefined-macro": [("data", "db", [N(0x17)]), ("call", "nosuchmacro", [N(1)])],
+    # kq is used at expansion time AFTER the .if; the else block (when it is the one NOT selected) defines a label named kq
+    "kq-used-after": [("data", "db", [N(0x18)])],
 }
-AFTER_IF = {"label-after": [("data", "dw", [S("la")])], "const-override": [("data", "db", [S("kq")])], "defines-macro": [("call", "mz", [])]}
+AFTER_IF = {"kq-used-after": [("if", S("kq"), [("data", "db", [N(0x5C)])], [("data", "db", [N(0x5D)])])], "label-after": [("data", "dw", [S("la")])], "const-override": [("data", "db", [S("kq")])], "defines-macro": [("call", "mz", [])]}
 ELSE = {
     "db": [("data", "db", [N(0x21)])],
     "label": [("label", "el"), ("data", "dw", [S("el")])],
@@ -69,6 +73,7 @@ ELSE = {
     "label-after": [("label", "la"), ("data", "db", [N(0x25)])],
     "defines-macro": [("macro", "mz", [], [("data", "db", [N(0xE2)])])],
     "undefined-macro": [("data", "db", [N(0x27)]), ("call", "nosuchmacro", [N(2)])],
+    "label-kq": [("label", "kq"), ("data", "db", [N(0x2A)])],
 }
 IF_PLACES = ["top", "block", "macro", "for"]
 FOR_BODIES = {
@@ -84,6 +89,7 @@ FOR_BODIES = {
     "assign-twice": [("const", "acc", N(5)), ("data", "db", [S("vv")]), ("const", "acc", ("b", "+", S("acc"), S("vv"))), ("data", "db", [S("acc")]),
                      ("for", "jj", N(0), S("acc"), [("data", "db", [N(0xC7)])])],
     "defines-macro": [("macro", "mz", [], [("data", "db", [("b", "+", S("vv"), N(0xE3))])]), ("call", "mz", [])],  # applied again AFTER the loop
+    "scope-in-body": [("scope", "fs", [("label", "sl"), ("data", "db", [S("vv")]), ("eq", "sv", ("b", "+", S("vv"), N(0x40)))]), ("data", "dw", [S("fs.sl")]), ("data", "db", [S("fs.sv")])],
     "shadow-const": [("const", "acc", ("b", "+", S("acc"), N(1))), ("data", "db", [S("acc")]), ("if", S("acc"), [("data", "db", [N(0x5C)])], None)],
 }
 FOR_PLACES = ["top", "block", "macro"]
@@ -92,7 +98,7 @@ VALS_T = [-3, -2, -1, 0, 1, 2, 3, 5, 8]
 
 
 def bound(tier):
-    return ("IF: 18 condition kinds x else on/off x 10 then x 6 else bodies x 4 placements; FOR: (16 literal bound pairs + 11 symbolic) x 10 "
+    return ("IF: 23 condition kinds x else on/off x 11 then x 7 else bodies x 4 placements; FOR: (16 literal bound pairs + 11 symbolic) x 10 "
             "bodies x 3 placements x 3 nestings" + ("; bound pairs over {-3..3,5,8}^2; 8 two-level placements" if tier == "thorough" else "")
             + f"; all directive nesting trees with <={4 if tier == 'thorough' else 3} items, depth <=3, over 7 leaves + 8 containers")
 
